@@ -5,11 +5,23 @@
 package auth
 
 import (
+	"crypto/rand"
+	"encoding/hex"
 	"sync"
 	"time"
 
 	"github.com/cnotch/ipchub/provider/security"
 )
+
+// newTokenString 生成不可预测的 token 字串；
+// 进程内递增ID（会话标识等会向客户端公开其相邻值）的摘要可以被推算，不能用作凭证
+func newTokenString() string {
+	var b [16]byte
+	if _, err := rand.Read(b[:]); err != nil {
+		return security.NewID().MD5()
+	}
+	return hex.EncodeToString(b[:])
+}
 
 // Token 用户登录后的Token
 type Token struct {
@@ -29,9 +41,9 @@ type TokenManager struct {
 func (tm *TokenManager) NewToken(username string) *Token {
 	token := &Token{
 		Username: username,
-		AToken:   security.NewID().MD5(),
+		AToken:   newTokenString(),
 		AExp:     time.Now().Add(time.Hour * time.Duration(2)).Unix(),
-		RToken:   security.NewID().MD5(),
+		RToken:   newTokenString(),
 		RExp:     time.Now().Add(time.Hour * time.Duration(7*24)).Unix(),
 	}
 
